@@ -2894,7 +2894,7 @@ where
                                 }
                                 self.publish_recv.insert(packet_id);
 
-                                if !self.qos2_publish_handled.insert(packet_id) {
+                                if self.qos2_publish_handled.contains(&packet_id) {
                                     already_handled = true;
                                 }
                                 if self.status == ConnectionStatus::Connected
@@ -2967,6 +2967,11 @@ where
                                     topic_alias_recv.insert_or_update(packet.topic_name(), ta);
                                 }
                             }
+                        }
+
+                        // The PUBLISH passed validation: from now on it counts as handled
+                        if packet.qos() == Qos::ExactlyOnce {
+                            self.qos2_publish_handled.insert(packet.packet_id().unwrap());
                         }
 
                         // Send response packets
